@@ -56,12 +56,16 @@ def wl_impl(case):
     w = Worklist()
     outs = []
     for o in ops:
-        if o[0] == "push":
-            w.push(o[1]); outs.append(-1)
-        elif o[0] == "remove":
-            w.remove(o[1]); outs.append(-1)
-        elif o[0] == "bool":
-            outs.append(11 if bool(w) else 10)
+        if o[0] in ("push", "remove", "bool"):
+            try:
+                if o[0] == "push":
+                    w.push(o[1]); outs.append(-1)
+                elif o[0] == "remove":
+                    w.remove(o[1]); outs.append(-1)
+                else:
+                    outs.append(11 if bool(w) else 10)
+            except Exception as e:  # noqa: BLE001  (these calls never raise in the abstract model)
+                outs.append(-90 - exc_code(e))
         else:
             try:
                 outs.append(w.pop())
